@@ -365,11 +365,11 @@ class FromOptimizationProblem(Contract):
     prop = ("C03",)
     params = {"problem": OPT_PROBLEM, "fields_": FIELDS}
     returns = RESULT
-    raises = {"KeyError": lambda c: feasible_points_lack_objective(data_term(db_of(c.old.problem)))}
+    raises = {}
     trusted = True
-    description = ("assumed (C04 covers OptimizationHistory.optimum; the constructor is pydantic): returns a result object built from the database of the "
-                   "problem and the given message / status / optimizer_name, reading the problem only; raises KeyError exactly in the region of the C04 known "
-                   "finding 'no-feasible-point-has-an-objective-value' (replayed natively: database.get_iteration(array([])))")
+    description = ("assumed (C04 covers OptimizationHistory.optimum: the reported point is a recorded point, so that database.get_iteration finds it - "
+                   "since the repair b727d31 also when no feasible point has an objective value; the constructor is pydantic): returns a result object "
+                   "built from the database of the problem and the given message / status / optimizer_name, reading the problem only")
 
     def ensures(self, c):
         r = c.result
@@ -403,9 +403,6 @@ class GetResult(Contract):
     params = {"problem": OPT_PROBLEM, "message": TVal, "status": TVal}
     returns = RESULT
     raises = {}
-
-    def finding_regions(self, c):
-        return {"no-feasible-point-has-an-objective-value": feasible_points_lack_objective(data_term(db_of(c.old.problem)))}
 
     def ensures(self, c):
         if c.result_value is None:
@@ -1002,3 +999,112 @@ class OptimizerNewIterationCallback(Contract):
 
     def raise_ensures(self, c, exc):
         return self._count(c)
+
+
+# ---------------------------------------------------------------------------- KNOWN FINDING (a): the counter is reset in the middle of a run
+LAG = A + "lagrange_multipliers.LagrangeMultipliers"
+MDOF = "gemseo.core.mdo_functions.mdo_function.MDOFunction"
+schema(MDOF + "#c03", {"_MDOFunction__expects_normalized_inputs": TBool})
+schema(OP + "#lagrange", {"evaluation_counter": TObj(CNT), "database": TObj(DB), "_objective": TObj(MDOF, schema_key=MDOF + "#c03")})
+schema(LAG, {
+    "optimization_problem": TObj(OP, schema_key=OP + "#lagrange"),
+    "active_lb_names": TList(TStr), "active_ub_names": TList(TStr), "active_ineq_names": TList(TStr), "active_eq_names": TList(TStr),
+    "lagrange_multipliers": TVal, "_LagrangeMultipliers__normalized": TBool, "kkt_residual": TVal, "constraint_violation": TVal,
+})
+
+
+@register
+class ProblemReset(_Assumed):
+    targets = (EP + ".reset", OP + ".reset")
+    params = {"database": TBool, "current_iter": TBool, "design_space": TBool, "function_calls": TBool, "preprocessing": TBool}
+    modifies = ("self.evaluation_counter", "self.database")
+    description = ("assumed thin summary (the bodies loop over lists of function objects): reset(current_iter) sets evaluation_counter.current to 0 iff current_iter "
+                   "(maximum kept); reset(database) clears the database content iff database (listeners kept); the other flags touch the design space value, the "
+                   "call counters and the preprocessing state only.  The counter clause is tied to the real source by the lemma contract ResetCounterClauseMatchesSource")
+
+    def ensures(self, c):
+        k0, k1 = c.old.self.evaluation_counter, c.new.self.evaluation_counter
+        d0, d1 = c.old.self.database, c.new.self.database
+        return [("counter", k1.current == z3.If(c.old.current_iter, 0, k0.current)), ("maximum-kept", k1.maximum == k0.maximum),
+                ("database", z3.If(c.old.database, d1._Database__data.n == 0, data_term(d1._Database__data) == data_term(d0._Database__data))),
+                ("listeners-kept", z3.And(same_list(d0._Database__new_iter_listeners, d1._Database__new_iter_listeners),
+                                          same_list(d0._Database__store_listeners, d1._Database__store_listeners))),
+                ("database-name-kept", d1.name == d0.name)]
+
+
+@register
+class ResetCounterClauseMatchesSource(Contract):
+    """Read on the REAL source: EvaluationProblem.reset assigns evaluation_counter.current exactly once, `= 0` under `if current_iter:`;
+    OptimizationProblem.reset never assigns it and forwards current_iter=current_iter to super().reset."""
+
+    targets = ()
+    prop = ("C03",)
+    lemma = True
+
+    def lemmas(self):
+        import ast
+
+        def counter_stores(fn):
+            return [x for x in ast.walk(fn) if isinstance(x, (ast.Assign, ast.AugAssign)) and "evaluation_counter" in ast.unparse(x.targets[0] if isinstance(x, ast.Assign) else x.target)]
+
+        ep, op = S.load_function(EP + ".reset").node, S.load_function(OP + ".reset").node
+        guarded = [s for s in ep.body if isinstance(s, ast.If) and ast.unparse(s.test) == "current_iter" and not s.orelse
+                   and [ast.unparse(b) for b in s.body] == ["self.evaluation_counter.current = 0"]]
+        forwards = [x for x in ast.walk(op) if isinstance(x, ast.Call) and ast.unparse(x.func) == "super().reset"
+                    and any(k.arg == "current_iter" and ast.unparse(k.value) == "current_iter" for k in x.keywords)]
+        return [("evaluation-problem-reset:counter-zeroed-iff-current_iter", z3.BoolVal(len(guarded) == 1 and len(counter_stores(ep)) == 1)),
+                ("optimization-problem-reset:forwards-current_iter", z3.BoolVal(len(forwards) == 1 and not counter_stores(op)))]
+
+
+@register
+class LagrangeMultipliersInit(Contract):
+    """Budget invariant of a running driver: between _init_iter_observer and the end of the run the evaluation counter is only ever incremented
+    (by the driver callback).  LagrangeMultipliers objects are created DURING runs (kkt_residual_computation <- _KKTChecker store listener /
+    KKTConditionsTester, augmented Lagrangian): their constructor must leave the counter of the problem as it is."""
+
+    targets = (LAG + ".__init__",)
+    prop = ("C03",)
+    c03 = True
+    params = {"opt_problem": TObj(OP, schema_key=OP + "#lagrange")}
+    modifies = ("self", "opt_problem.evaluation_counter")
+
+    def finding_regions(self, c):
+        return {"counter-is-nonzero": c.old.opt_problem.evaluation_counter.current != 0}
+
+    def ensures(self, c):
+        k0, k1 = c.old.opt_problem.evaluation_counter, c.new.opt_problem.evaluation_counter
+        return [("budget:evaluation-counter-unchanged", k1.current == k0.current), ("budget:maximum-unchanged", k1.maximum == k0.maximum)]
+
+
+# ---------------------------------------------------------------------------- KNOWN FINDING (b): no budget without a database
+PF = A + "problem_function.ProblemFunction"
+schema(PF + "#nodb", {**C.class_schema(PF), "_database": TNone})
+
+
+class _NoDatabaseEntryPoint:
+    """ProblemFunction.__init__ makes `_compute_output` / `_compute_jacobian` THE evaluation entry points when no database is used
+    (use_database=False).  Budget clause of the property: once the maximum is reached, the original function is not evaluated any more
+    (the database-assisted entry points raise MaxIterReachedException before any call - verified in c01_c03_evaluation.py)."""
+
+    variant = "no-database"
+    prop = ("C03",)
+    self_schema = PF + "#nodb"
+
+    def finding_regions(self, c):
+        return {"database-not-used": z3.BoolVal(c.old.self._database is None)}
+
+    def ensures(self, c):
+        cnt = c.old.self._evaluation_counter
+        exhausted = z3.And(cnt.maximum != 0, cnt.current >= cnt.maximum)
+        n0, n1 = c.old_ghost("calllog_n", z3.IntSort()), c.new_ghost("calllog_n", z3.IntSort())
+        return super().ensures(c) + [("budget:no-evaluation-once-the-maximum-is-reached", z3.Implies(exhausted, n1 == n0))]
+
+
+@register
+class ComputeOutputNoDatabase(_NoDatabaseEntryPoint, E.ComputeOutput):
+    pass
+
+
+@register
+class ComputeJacobianNoDatabase(_NoDatabaseEntryPoint, E.ComputeJacobian):
+    pass
